@@ -751,10 +751,28 @@ class CombinedExpressionSerialization(DeconstructedSerialization):
             unicode:
             The resulting Python code.
         """
+        # Some connectors are SQL-oriented and differ from the Python operator
+        # that produces them (F('a') % 2 has the connector '%%', and
+        # F('a') ** 2 has '^').
+        connector = {
+            '%%': '%',
+            '^': '**',
+        }.get(value.connector, value.connector)
+
+        def _serialize_operand(operand):
+            result = serialize_to_python(operand)
+
+            if isinstance(operand, CombinedExpression):
+                # Keep the grouping of nested expressions. Without this,
+                # a - (b - c) would be written (and loaded) as a - b - c.
+                result = '(%s)' % result
+
+            return result
+
         return '%s %s %s' % (
-            serialize_to_python(value.lhs),
-            value.connector,
-            serialize_to_python(value.rhs),
+            _serialize_operand(value.lhs),
+            connector,
+            _serialize_operand(value.rhs),
         )
 
     @classmethod
